@@ -554,9 +554,14 @@ class C10(Plan):
             # ThinArc constructors fed by lying ExactSizeIterators, in debug and release builds
             j += simple_jobs("dbg", ["faults", "seed=%d" % seed, "part=iter"], p)
             j += simple_jobs("rel", ["faults", "seed=%d" % seed, "part=iter"], p)
+            # header x element shape matrix (plain-data elements without drop glue, zero-sized, over-aligned) released through thin handles
+            j += shapes_jobs("dbg", "b", seed, p, frac=2, nshards=2)
+            j += shapes_jobs("rel", "b", seed, p, frac=4, nshards=1)
         else:
             j = simple_jobs("dbg", ["faults", "seed=%d" % seed, "part=iter", "big"], p)
             j += simple_jobs("rel", ["faults", "seed=%d" % seed, "part=iter", "big"], p)
+            j += shapes_jobs("dbg", "b", seed, p, frac=1, nshards=4)
+            j += shapes_jobs("rel", "b", seed, p, frac=1, nshards=4)
             j += thin_jobs("dbg", 100000, 300, seed, p, p, nshards=16)
             j += thin_jobs("rel", 60000, 300, seed, p, p, nshards=16, first0=10 ** 6)
             j += thin_jobs("off", 20000, 300, seed, p, p, nshards=8, first0=5 * 10 ** 6)
@@ -685,6 +690,9 @@ class C11(ShapesPlan):
         j += hist_jobs("dbg", 40000 if big else 400, 220, seed, (), (), nshards=8 if big else 2)
         j += thin_jobs("dbg", 10000 if big else 200, 220, seed, (), (), nshards=4 if big else 1)
         j += thin_jobs("dbg", 10000 if big else 200, 220, seed, (), (), nshards=4 if big else 1, engine="slices")
+        # pointer provenance of transient handles (with_raw_offset_arc, borrow_arc, ...) is only visible to the interpreter
+        j += miri_hist_jobs(48 if big else 8, 140 if big else 70, seed, p, tb_every=4, first0=17 * 10 ** 6)
+        j += miri_hist_jobs(16 if big else 3, 140 if big else 70, seed, p, tb_every=4, engine="thin", first0=18 * 10 ** 6)
         return j
     rule = ("same declared matrix as C05; one evaluation = one case in which as_ptr / &*handle / into_raw / OffsetArc and ArcBorrow bit patterns / arc-swap RefCnt pointers are compared with each "
             "other and with the block address recorded by the shadow allocator, from_raw-style round trips (also through a trait-object cast) are checked for same allocation, contents "
